@@ -1045,6 +1045,14 @@ class OptionStore:
             mlog.deprecation(f'Option "{error_key}" is replaced by {opt.deprecated!r}')
             # Change both this aption and the new one pointed to.
             newkey = key.evolve(name=opt.deprecated)
+            # A chain of replacements must end somewhere
+            seen = {key.name}
+            replacement: T.Optional[AnyOptionType] = opt
+            while replacement is not None and isinstance(replacement.deprecated, str):
+                if replacement.deprecated in seen:
+                    raise MesonException(f'Option "{error_key}" is replaced by itself.')
+                seen.add(replacement.deprecated)
+                replacement = self.options.get(key.evolve(name=replacement.deprecated))
             if newkey.subproject == '' and newkey not in self.options:
                 # Replaced by a built-in or module option, which the top-level
                 # project sets for the whole build, not for itself only.
